@@ -30,15 +30,31 @@ class LP(FP):
             self.eat()
             a = f"({a} ∧ {self.cmp()})"
         return a
+    def cmp(self):
+        n0 = self.i
+        a = self.bor()
+        while self.peek() in (("op", "=="), ("op", "!="), ("op", ">="), ("op", "<="), ("op", "<"), ("op", ">")):
+            op = self.eat()
+            b = self.bor()
+            a = f"({a} {'=' if op == '==' else '≠' if op == '!=' else '≥' if op == '>=' else '≤' if op == '<=' else op} {b})"
+            self.props.add(a)
+        return a
+    props = set()
     def postfix(self):
         a = self.atom()
         while True:
-            if self.peek() == ("op", ".") and self.peek(1)[0] == "id":
+            if self.peek() == ("op", ".") and self.peek(1)[0] == "id" and self.peek(2) != ("op", "("):
+                # field of a header view (`s.bits`)
+                self.eat()
+                a = f"{a}_{self.eat('id')}"
+            elif self.peek() == ("op", ".") and self.peek(1)[0] == "id":
                 self.eat()
                 m = self.eat("id")
                 self.eat("op", "(")
                 self.eat("op", ")")
-                if m == "leading_zeros":
+                if m == "key_found":
+                    a = f"(RI.keyFound {a})"
+                elif m == "leading_zeros":
                     a = f"(RI.clz {self.W} {a})"
                 elif m == "len":
                     a = f"(Array.size {a})"
@@ -71,6 +87,10 @@ class LP(FP):
             e = self.expr()
             self.eat("idxend")
             return f"(RI.idx {v} {e})"
+        if k == "id" and v in ("split_u64", "split_u32") and self.peek(1) == ("op", "("):
+            self.eat(); self.eat()
+            x = self.expr(); self.eat("op", ","); b = self.expr(); self.eat("op", ")")
+            return f"(split_{self.suffix} {x} {b})"
         return super().atom()
 
 def lex(body):
@@ -91,7 +111,8 @@ def lex(body):
 class SP:
     """statement parser -> AST"""
     def __init__(self, toks, W, suffix):
-        self.p = LP(toks, W, {"p_poverty"}, suffix)
+        self.p = LP(toks, W, {"p_poverty", "compute_array_bits", "p_lookfor"}, suffix)
+        self.p.props = set()
     def at(self, v):
         return self.p.at(v)
     def block(self):
@@ -107,6 +128,13 @@ class SP:
         return b
     def stmt(self):
         p = self.p
+        if self.at("let") and p.peek(1) == ("op", "("):
+            p.eat(); p.eat()
+            x = p.eat("id"); p.eat("op", ","); y = p.eat("id"); p.eat("op", ")")
+            p.eat("op", "=")
+            e = p.expr()
+            p.eat("op", ";")
+            return ("let2", x, y, e)
         if self.at("let"):
             p.eat()
             if self.at("mut"):
@@ -149,6 +177,23 @@ class SP:
             hi = p.cast()
             body = self.braced()
             return ("for", v, lo, hi, body)
+        if self.at("if") and p.peek(1) == ("id", "let"):
+            p.eat(); p.eat()
+            ctor = p.eat("id")
+            p.eat("op", "("); v = p.eat("id"); p.eat("op", ")")
+            p.eat("op", "=")
+            if ctor == "Some":
+                arr = p.eat("id"); p.eat("op", "."); p.eat("id", "get"); p.eat("op", "(")
+                i = p.expr(); p.eat("op", ")")
+                scrut = ("get", arr, i)
+            elif ctor == "LookedUp::KeyFound":
+                scrut = ("found", p.expr())
+            else:
+                raise TieError(f"if let {ctor}")
+            a = self.braced()
+            p.eat("id", "else")
+            b = self.braced()
+            return ("iflet", v, scrut, a, b)
         if self.at("if"):
             arms = []
             els = None
@@ -209,10 +254,16 @@ def assigned(stmts):
     return out
 
 class Gen:
-    def __init__(self, name, params, ret):
+    def __init__(self, name, params, ret, pure=False, props=None):
         self.name, self.params, self.ret = name, params, ret       # params: [(name, leantype)]
         self.defs = []
         self.nloops = 0
+        self.pure = pure          # a function of `&self`: `return e` is just the value (a `bool`)
+        self.props = props or set()
+    def value(self, e):
+        if not self.pure:
+            return f"(Except.ok ({e}, a))"
+        return f"(decide {e})" if e in self.props else e
     def ty(self, x):
         return dict(self.params).get(x, "Nat")
     def comp(self, stmts, scope, tail):
@@ -232,11 +283,20 @@ class Gen:
         if k == "swap":
             return f"(let swap_tmp := RI.idx {s[1]} {s[2]}; let {s[1]} := RI.set {s[1]} {s[2]} {s[3]}; let {s[3]} := swap_tmp; {self.comp(rest, scope, tail)})"
         if k == "return":
-            return f"(Except.ok ({s[1]}, a))"
+            return self.value(s[1])
         if k == "expr":
             if rest:
                 raise TieError(f"{self.name}: expression statement in the middle of a block")
-            return f"(Except.ok ({s[1]}, a))"
+            return self.value(s[1])
+        if k == "let2":
+            return f"(let {s[1]} := ({s[3]}).1; let {s[2]} := ({s[3]}).2; {self.comp(rest, scope + [s[1], s[2]], tail)})"
+        if k == "iflet":
+            _, v, scrut, a, b = s
+            if scrut[0] == "get":
+                return (f"(if {scrut[2]} < Array.size {scrut[1]} then (let {v} := RI.idx {scrut[1]} {scrut[2]}; "
+                        f"{self.comp(a + rest, scope + [v], tail)}) else {self.comp(b + rest, scope, tail)})")
+            return (f"(match RI.foundIdx {scrut[1]} with | some {v} => {self.comp(a + rest, scope + [v], tail)} "
+                    f"| none => {self.comp(b + rest, scope, tail)})")
         if k == "panic":
             return f'(Except.error "{s[1]}")'
         if k == "if":
@@ -280,6 +340,32 @@ def gen_fn(src, W, suffix, fn, sig_re, params, ret):
     sig = " ".join(f"({x} : {t})" for x, t in params)
     return g.defs + [f"def {fn}_{suffix} {sig} : {ret} := {top}"]
 
+def gen_contains(src, W, suffix):
+    ty = "u64" if W == 64 else "u32"
+    m = re.search(r'\n    pub fn contains\(&self, e: %s\) -> bool \{' % ty, src)
+    if not m:
+        raise TieError(f"cannot find contains ({suffix})")
+    body = body_of(src, m.end() - 1)[0]
+    if not re.search(r'match self\.internal\(\) \{\s*Internal::Empty => false,\s*Internal::Stack\(t\) => t\.contains\(e\),', body):
+        raise TieError(f"contains ({suffix}): shape of the Empty / Stack arms")
+    out = []
+    for arm, pat, params in (("dense", r'Internal::Dense \{ a, \.\. \} => \{', [("e", "Nat"), ("a", "Array Nat")]),
+                             ("heap", r'Internal::Heap \{ s, a \} => \{', [("e", "Nat"), ("s_bits", "Nat"), ("a", "Array Nat")]),
+                             ("big", r'Internal::Big \{ s, a \} => \{', [("e", "Nat"), ("s_bits", "Nat"), ("a", "Array Nat")])):
+        mm = re.search(pat, body)
+        if not mm:
+            raise TieError(f"contains ({suffix}): {arm} arm")
+        ab = body_of(body, mm.end() - 1)[0]
+        sp = SP(lex(ab), W, suffix)
+        stmts = sp.block()
+        if sp.p.peek()[0] != "eof":
+            raise TieError(f"contains {arm}: trailing tokens {sp.p.peek()}")
+        g = Gen(f"contains_{arm}_{suffix}", params, "Bool", pure=True, props=sp.p.props)
+        top = g.comp(stmts, [x for x, _ in params], None)
+        sig = " ".join(f"({x} : {t})" for x, t in params)
+        out.append(f"def contains_{arm}_{suffix} {sig} : Bool := {top}")
+    return out
+
 def gen_loops(s64, s32):
     out = ["import TinysetModel.Generated.Fns",
            "/-! GENERATED by /verif/tools/gen_loops.py from src/setu64.rs and src/setu32.rs — do not edit.",
@@ -292,6 +378,11 @@ def gen_loops(s64, s32):
            "/-- slice read / write -/",
            "def idx (a : Array Nat) (i : Nat) : Nat := a.getD i 0",
            "def set (a : Array Nat) (i v : Nat) : Array Nat := a.setIfInBounds i v",
+           "/-- `if let LookedUp::KeyFound(idx) = ..` / `.key_found()` on the result of `p_lookfor` -/",
+           "def foundIdx : Except String (Looked × Array Nat) → Option Nat",
+           "  | .ok (.found i, _) => some i",
+           "  | _ => none",
+           "def keyFound (r : Except String (Looked × Array Nat)) : Bool := (foundIdx r).isSome",
            "end RI"]
     for src, W, suffix in ((s64, 64, "64"), (s32, 32, "32")):
         ty = "u64" if W == 64 else "u32"
@@ -299,6 +390,7 @@ def gen_loops(s64, s32):
         out += gen_fn(src, W, suffix, "p_lookfor", r'\nfn p_lookfor\(k: %s, a: &\[%s\], offset: %s\) -> LookedUp \{' % (ty, ty, ty), P, "Except String (Looked × Array Nat)")
         out += gen_fn(src, W, suffix, "p_insert", r'\nfn p_insert\(k: %s, a: &mut \[%s\], offset: %s\) -> usize \{' % (ty, ty, ty), P, "Except String (Nat × Array Nat)")
         out += gen_fn(src, W, suffix, "p_remove", r'\nfn p_remove\(k: %s, a: &mut \[%s\], offset: %s\) -> bool \{' % (ty, ty, ty), P, "Except String (Bool × Array Nat)")
+        out += gen_contains(src, W, suffix)
     out.append("end Gen")
     return "\n".join(out) + "\n"
 
